@@ -8,3 +8,4 @@
 import ForsysModel.Props.C03
 import ForsysModel.Props.C03matrix
 import ForsysModel.Props.C13relabel
+import ForsysModel.Props.C12relabel
